@@ -56,4 +56,9 @@ static const char *ename(int e)
 #include <unistd.h>
 static void h_on_alarm(int sig) { (void)sig; static const char m[] = "\nHANG\n"; if (write(1, m, sizeof(m) - 1)) {} _exit(97); }
 static void h_watchdog(unsigned sec) { signal(SIGALRM, h_on_alarm); alarm(sec); }
+/* diagnostic builds (tools/coverage.py): children that leave through _exit() keep their gcov counters */
+#ifdef VERIF_COVERAGE
+extern void __gcov_dump(void);
+#define _exit(c) do { __gcov_dump(); (_exit)(c); } while (0)
+#endif
 #endif
